@@ -73,6 +73,78 @@ theorem K_C09_witnesses :
 width — for every bit width, not only the registered ones -/
 theorem numeric_check_iff (a b : NumT) : numCheck a b = true ↔ a = b := numCheck_iff a b
 
+/-! ### the clauses in the quantified form of the property (the table checks lifted by the lemmas of
+`Registry`): statements about *every key* and *every ordered pair* of the regenerated tables -/
+
+/-- every key's resolved type is a row of its engine's table (needed to compose (a) with (b)) -/
+theorem keys_closed :
+    keysClosed numpyKeys numpyDtypes = true ∧ keysClosed pandasKeys pandasDtypes = true
+    ∧ keysClosed polarsKeys polarsDtypes = true ∧ keysClosed pysparkKeys pysparkDtypes = true := by decide +kernel
+
+/-- **C09 (a)+(b)** `E.dtype(E.dtype(k)) == E.dtype(k)` with equal hashes, for every engine `E` and every key
+`k` of its registry -/
+theorem every_key_resolves_to_a_fixed_point :
+    ∀ p ∈ [(numpyKeys, numpyDtypes), (pandasKeys, pandasDtypes), (polarsKeys, polarsDtypes),
+           (pysparkKeys, pysparkDtypes)],
+      ∀ k ∈ p.1, ∃ r ∈ p.2, k.resolved = some r.id ∧ r.re = some r.id ∧ r.hashStable = true := by
+  intro p hp
+  simp only [List.mem_cons, List.mem_nil_iff, or_false] at hp
+  rcases hp with rfl | rfl | rfl | rfl
+  · exact resolve_fixed_forall _ _ keys_closed.1 resolve_idempotent.1
+  · exact resolve_fixed_forall _ _ keys_closed.2.1 resolve_idempotent.2.1
+  · exact resolve_fixed_forall _ _ keys_closed.2.2.1 resolve_idempotent.2.2.1
+  · exact resolve_fixed_forall _ _ keys_closed.2.2.2 resolve_idempotent.2.2.2
+
+/-- **C09 (c)** `k1 ~ k2 ⇒ E.dtype(k1) == E.dtype(k2)` and equal hashes, for every engine and every pair of keys -/
+theorem equivalent_keys_forall :
+    ∀ ks ∈ [numpyKeys, pandasKeys, polarsKeys, pysparkKeys],
+      ∀ a ∈ ks, ∀ b ∈ ks, a.group = b.group → a.resolved = b.resolved ∧ a.hash = b.hash := by
+  intro ks hks
+  simp only [List.mem_cons, List.mem_nil_iff, or_false] at hks
+  rcases hks with rfl | rfl | rfl | rfl
+  · exact groups_forall _ equivalent_keys_equal_and_equal_hash.1
+  · exact groups_forall _ equivalent_keys_equal_and_equal_hash.2.1
+  · exact groups_forall _ equivalent_keys_equal_and_equal_hash.2.2.1
+  · exact groups_forall _ equivalent_keys_equal_and_equal_hash.2.2.2
+
+/-- **C09 (f)** for every ordered pair of resolved types of the pandas engine (outside the recorded `Date` row):
+a physical type that recognises another has its kind, signedness and width -/
+theorem pandas_check_pairs_forall_partial :
+    ∀ a ∈ pandasDtypes, physical a = true → K_dateChecksObject a = false →
+      ∀ b ∈ pandasDtypes, cell pandasCheck a.id b.id = true →
+        a.kind = b.kind ∧ a.signed = b.signed ∧ a.bits = b.bits :=
+  respectsKind_forall _ _ _ check_implies_same_kind_sign_width_partial.2.1
+
+/-- **C09 (f)** the same for numpy, polars and pyspark, with no exclusion -/
+theorem check_pairs_forall :
+    ∀ p ∈ [(numpyDtypes, numpyCheck), (polarsDtypes, polarsCheck), (pysparkDtypes, pysparkCheck)],
+      ∀ a ∈ p.1, physical a = true → ∀ b ∈ p.1, cell p.2 a.id b.id = true →
+        a.kind = b.kind ∧ a.signed = b.signed ∧ a.bits = b.bits := by
+  intro p hp a ha hph b hb hc
+  simp only [List.mem_cons, List.mem_nil_iff, or_false] at hp
+  rcases hp with rfl | rfl | rfl
+  · exact respectsKind_forall _ _ _ check_implies_same_kind_sign_width_partial.1 a ha hph rfl b hb hc
+  · exact respectsKind_forall _ _ _ check_implies_same_kind_sign_width_partial.2.2.1 a ha hph rfl b hb hc
+  · exact respectsKind_forall _ _ _ check_implies_same_kind_sign_width_partial.2.2.2 a ha hph rfl b hb hc
+
+/-- **C09 (d)+(e)** numpy and pyspark, full strength: every primitive type's printed name resolves back to it
+and every type recognises itself -/
+theorem print_and_reflexive_forall :
+    ∀ p ∈ [(numpyDtypes, numpyCheck), (pysparkDtypes, pysparkCheck)],
+      ∀ r ∈ p.1, (r.primitive = true → r.restr = some r.id) ∧ cell p.2 r.id r.id = true := by
+  intro p hp r hr
+  simp only [List.mem_cons, List.mem_nil_iff, or_false] at hp
+  rcases hp with rfl | rfl
+  · exact ⟨fun h => printRoundtrip_forall _ _ print_resolve_roundtrip_partial.1 r hr h rfl,
+      reflexive_forall _ _ _ check_reflexive_partial.1 r hr rfl⟩
+  · exact ⟨fun h => printRoundtrip_forall _ _ print_resolve_roundtrip_partial.2.2 r hr h rfl,
+      reflexive_forall _ _ _ check_reflexive_partial.2.2.2 r hr rfl⟩
+
+/-- the physical premises are met by many rows, and recognised pairs exist (non-vacuity of (f)) -/
+example : (pandasDtypes.filter physical).length ≥ 20
+    ∧ (pandasDtypes.filter (fun a => physical a && !K_dateChecksObject a
+        && pandasDtypes.any (fun b => a.id != b.id && cell pandasCheck a.id b.id))).length ≥ 1 := by decide +kernel
+
 /-- the tables are not empty (the clauses are not vacuous) -/
 example : numpyDtypes.length ≥ 15 ∧ pandasDtypes.length ≥ 50 ∧ polarsDtypes.length ≥ 15 ∧ pysparkDtypes.length ≥ 10
     ∧ pandasKeys.length ≥ 150 := by decide +kernel
